@@ -314,3 +314,44 @@ def const_value_(node):
     if isinstance(node, ast.UnaryOp) and isinstance(node.op, ast.USub) and isinstance(node.operand, ast.Constant):
         return -node.operand.value
     return None
+
+
+def local_defs(fnode):
+    """{name: value expr} for locals stored exactly once in the function by a plain or parallel assignment whose value reads only
+    names that are never re-stored in the function (so the value can stand for the name anywhere after the definition)"""
+    stores = {}
+    for n in ast.walk(fnode):
+        if isinstance(n, ast.Name) and isinstance(n.ctx, (ast.Store, ast.Del)):
+            stores[n.id] = stores.get(n.id, 0) + 1
+    params = {a.arg for a in fnode.args.posonlyargs + fnode.args.args + fnode.args.kwonlyargs}
+    out = {}
+
+    def ok_value(v):
+        return all(stores.get(x.id, 0) == 0 or (stores.get(x.id, 0) == 1 and x.id in out) for x in ast.walk(v) if isinstance(x, ast.Name) and isinstance(x.ctx, ast.Load))
+    for n in ast.walk(fnode):
+        if not (isinstance(n, ast.Assign) and len(n.targets) == 1):
+            continue
+        t, v = n.targets[0], n.value
+        pairs = []
+        if isinstance(t, ast.Name):
+            pairs = [(t, v)]
+        elif isinstance(t, ast.Tuple) and isinstance(v, ast.Tuple) and len(t.elts) == len(v.elts) and all(isinstance(x, ast.Name) for x in t.elts):
+            pairs = list(zip(t.elts, v.elts))
+        for x, y in pairs:
+            if stores.get(x.id) == 1 and x.id not in params and ok_value(y):
+                out[x.id] = y
+    return out
+
+
+def expand_locals(e, defs, depth=4):
+    import copy
+
+    class Exp(ast.NodeTransformer):
+        def __init__(self, d):
+            self.d = d
+
+        def visit_Name(self, n):
+            if isinstance(n.ctx, ast.Load) and n.id in defs and self.d > 0:
+                return Exp(self.d - 1).visit(copy.deepcopy(defs[n.id]))
+            return n
+    return Exp(depth).visit(copy.deepcopy(e))
